@@ -8,7 +8,7 @@ LEVEL = "exploration"
 NEEDS = ("rust", "deps")
 EXHAUSTIVE = {"quick": False, "thorough": False}
 REQUIRED_MONITORS = ["python_vs_reference", "rust_vs_reference", "python_vs_rust", "every_cycle_exactly_once",
-                     "advance_contract"]
+                     "advance_contract", "machine_level"]
 RULE = ("period pairs: ALL (p,q) in 0..12 x 0..12 x enabled in {0,1} (complete, both tiers) + sampled large periods "
         "(primes, 2^k+-1, the real defaults); cycle sequences: every-cycle for 5*lcm, gap styles {1,2,p-1,p,p+1,2p,2p+1,10p+3, "
         "random}, with resets and snapshot->restore on a fresh context at seeded points. The same monotone sequence is fed to "
@@ -189,9 +189,78 @@ def run_config(res: Result, cfgs):
     res.monitors["advance_contract"] = _contract["evals"]
 
 
+def run_machine(res: Result, r, n):
+    """Machine level: NOP/WAIT/HALT programs with IMR=0 (no handlers) on PCE500Emulator and CoreRuntime; the driver
+    clears ISR after every observation. Clauses: target strictly in the future and phase preserved (multiple of the
+    period, first boundary after the last tick); status bit rises iff a boundary was crossed; rises == boundaries
+    passed (== next/p - 1) for 1-cycle-per-step programs, <= when WAIT spans several periods; disabled/zero never fire."""
+    from .. import machine
+    from ..machine import le3, ROM_BASE, VECTOR, ENTRY
+    from .c12 import key_codes
+    jobs = []
+    mains = {"nop": bytes([0x00, 0x00, 0x13, 0x04]), "halt": bytes([0xDE, 0x00, 0x13, 0x04]),
+             "wait": bytes([0x0B, 0x00, 0x00, 0xEF, 0x00, 0x13, 0x07])}
+    for _ in range(n):
+        kind = r.choice(list(mains))
+        code = bytearray(mains[kind])
+        if kind == "wait":
+            code[1] = r.choice((1, 2, 3, 5, 9, 20))
+        p, q = r.choice((1, 2, 3, 4, 5, 7, 9, 16)), r.choice((0, 2, 3, 5, 8, 11))
+        en = r.random() < 0.85
+        reset = bytes([0x0F]) + le3(0xB9000) + bytes([0x32, 0xCC, 0xFB, 0x00])
+        scen = {"code": [[ROM_BASE, (reset + bytes(code)).hex()], [VECTOR, le3(ROM_BASE).hex()], [ENTRY, le3(ROM_BASE).hex()]],
+                "regs": {"PC": ROM_BASE, "S": 0xB9000}, "imem": {0xFB: 0, 0xFC: 0},
+                "timer": {"enabled": en, "mti": p, "sti": q, "kb_irq": False}}
+        script = [("obs",)]
+        for _s in range(r.randrange(30, 90)):
+            script += [("step",), ("wimem", 0xFC, 0), ("obs",)]
+        jobs.append((scen, script, kind, p, q, en))
+    routs = machine.run_rust([(s, sc) for s, sc, *_ in jobs], key_codes())
+    for (scen, script, kind, p, q, en), (robs, rerr, _) in zip(jobs, routs):
+        pobs = machine.PyMachine(scen).run(script)
+        for model, obs in (("py", pobs), ("rs", robs)):
+            res.evaluations += 1
+            res.monitor("machine_level")
+            case = {"model": model, "main": kind, "mti": p, "sti": q, "enabled": en, "steps": len(obs)}
+            rises = [0, 0]
+            recs = [o for o in obs]
+            # records alternate: obs0, (step, obs-after-clear)*
+            steps = recs[1::2]
+            bad = None
+            for o in steps:
+                for bit, per, key in ((0, p, "next_mti"), (1, q, "next_sti")):
+                    if o["isr"] & (1 << bit):
+                        rises[bit] += 1
+                        if not en or per == 0:
+                            bad = ("disabled_or_zero_period_timer_fired", {"bit": bit, "cycles": o["cycles"]})
+                    if en and per > 0:
+                        nxt = o[key]
+                        lower = o["cycles"] - 1 if model == "py" else o["cycles"]
+                        if not (nxt > lower and nxt % per == 0 and nxt - per <= o["cycles"]):
+                            bad = ("machine_next_target", {"timer": key, "next": nxt, "cycles": o["cycles"], "period": per})
+                if bad:
+                    break
+            if not bad and en and steps:
+                last = steps[-1]
+                for bit, per, key in ((0, p, "next_mti"), (1, q, "next_sti")):
+                    if per > 0:
+                        passed = last[key] // per - 1
+                        exact = kind != "wait"
+                        if (exact and rises[bit] != passed) or (not exact and not (1 <= rises[bit] <= passed if passed else rises[bit] == 0)):
+                            bad = ("machine_fire_count", {"timer": key, "rises": rises[bit], "boundaries_passed": passed,
+                                                          "cycles": last["cycles"], "period": per})
+                            break
+            if bad:
+                res.violation({"clause": bad[0], "model": model, "main": kind}, case, bad[1])
+            elif sum(rises):
+                res.nontrivial("machine", model, kind, p, q, en, len(steps))
+
+
 def plan(tier, seed):
     specs = []
     idx = 0
+    for i in range(4 if tier == "quick" else 16):
+        specs.append({"kind": "machine", "seed": seed, "tier": tier, "idx": 1000 + i})
     for p in range(13):
         specs.append({"kind": "small", "p": p, "seed": seed, "tier": tier, "idx": idx}); idx += 1
     parts = 4 if tier == "quick" else 16
@@ -207,6 +276,9 @@ def run_shard(spec) -> Result:
     res = Result()
     r = rng(spec["seed"], "c13", spec["idx"])
     cfgs = []
+    if spec["kind"] == "machine":
+        run_machine(res, r, 40 if spec["tier"] == "quick" else 400)
+        return res
     if spec["kind"] == "small":
         p = spec["p"]
         for q in range(13):
